@@ -462,6 +462,56 @@ def rule_alloc_pyx(ctx, m):
 
 
 # ------------------------------------------------------------------------------------------ stride form of n-D reads
+def _remove_addend(e, d):
+    """e with the additive occurrence of d removed (d must occur exactly once, as a summand); None otherwise."""
+    if e == d:
+        return ('num', 0)
+    if e[0] == 'bin' and e[1] == '+':
+        l, r = e[2], e[3]
+        if r == d and not any(y == d for y in walk_expr(l)):
+            return l
+        if l == d and not any(y == d for y in walk_expr(r)):
+            return r
+        if any(y == d for y in walk_expr(l)) and not any(y == d for y in walk_expr(r)):
+            rl = _remove_addend(l, d)
+            return None if rl is None else ('bin', '+', rl, r)
+        if any(y == d for y in walk_expr(r)) and not any(y == d for y in walk_expr(l)):
+            rr = _remove_addend(r, d)
+            return None if rr is None else ('bin', '+', l, rr)
+    if e[0] == 'bin' and e[1] == '-' and any(y == d for y in walk_expr(e[2])) and not any(y == d for y in walk_expr(e[3])):
+        rl = _remove_addend(e[2], d)
+        return None if rl is None else ('bin', '-', rl, e[3])
+    return None
+
+
+def _is_mult(e, nd, f, seen):
+    """e is syntactically a multiple of the variable nd: 0, a product with a factor nd, a sum of multiples, or a local variable
+    all of whose definitions (and += updates) are multiples."""
+    if e[0] == 'num':
+        return e[1] == 0
+    if e[0] == 'cast':
+        return _is_mult(e[-1], nd, f, seen)
+    if e[0] == 'bin' and e[1] == '*':
+        return e[2] == ('var', nd) or e[3] == ('var', nd) or _is_mult(e[2], nd, f, seen) or _is_mult(e[3], nd, f, seen)
+    if e[0] == 'bin' and e[1] in '+-':
+        return _is_mult(e[2], nd, f, seen) and _is_mult(e[3], nd, f, seen)
+    if e[0] == 'var':
+        v = e[1]
+        if v in seen or v == nd:
+            return True
+        if v in [p for p, t in f.params]:
+            return False
+        seen = seen | {v}
+        defs = [t for t in walk_stmts(f.body) if t.k == 'assign' and t.target == e]
+        if not defs:
+            return False
+        for t in defs:
+            if not _is_mult(t.value, nd, f, seen):
+                return False
+        return True
+    return False
+
+
 def rule_ndim_stride(ctx, m, funcs):
     """Every read of a series parameter inside a loop over the dimension variable has the form s[idx*ndim + d] -- the
     dimension loop variable appears in every such subscript."""
@@ -485,6 +535,13 @@ def rule_ndim_stride(ctx, m, funcs):
                             ctx.check(has_d, 'R-STRIDE', f.file, fname, 'read %s in dimension loop' % fmt(x),
                                       'inside the loop over the %s dimensions the read %s does not depend on the dimension index: every dimension is '
                                       'compared with component 0 of that element' % ('ndim', fmt(x)), s.line)
+                            if has_d:
+                                # element-major layout: the subscript is (a multiple of ndim) + d
+                                rest = _remove_addend(x[2], ('var', dv))
+                                okm = rest is not None and _is_mult(rest, 'ndim', f, set())
+                                ctx.check(okm, 'R-STRIDE', f.file, fname, 'stride of %s' % fmt(x),
+                                          'series are stored element-major (item i, dimension d at i*ndim + d): the subscript of %s is not (a multiple of ndim) + %s, '
+                                          'so the components of different items are mixed' % (fmt(x), dv), s.line)
     ctx.count('n-D subscripts', n)
     return n
 
